@@ -24,7 +24,7 @@ ASSUMPTIONS = [
 def _setup(h, cls, n, p, model_kind="poly"):
     import inference.likelihoods as lk
     C = {"gauss": lk.GaussianLikelihood, "cauchy": lk.CauchyLikelihood, "logistic": lk.LogisticLikelihood}[cls]
-    h.covers(C.__init__, C._log_likelihood, C._log_likelihood_gradient, lk.Likelihood.__init__, lk.Likelihood.__call__,
+    h.covers(C.__init__, *[getattr(C, n) for n in ("_log_likelihood", "_log_likelihood_gradient") if hasattr(C, n)], lk.Likelihood.__init__, lk.Likelihood.__call__,
              lk.Likelihood.gradient, lk.Likelihood.cost, lk.Likelihood.cost_gradient)
     h.patch(lk, logaddexp=funcs.logaddexp)
     y = h.real("y", n)
